@@ -58,3 +58,55 @@ Theorem C01_unmodelled_excluded :
   snd (eval std_uni 10 (harness_interp 0) (lit "pclear")) = Panic (lit "command not modelled").
 Proof. exact unmodelled_command_panics. Qed.
 Print Assumptions C01_unmodelled_excluded.
+
+(* ---- nothing loops or runs out of fuel: the readers and conversions are total ---- *)
+From Molt Require Import Model.Tokenizer Proofs.TotalFacts.
+
+(* the script reader never exhausts the fuel [parse] gives it, for any input *)
+Theorem C01_parse_total : forall is_alnum s, parse is_alnum s <> PFuel.
+Proof. exact parse_is_total. Qed.
+Print Assumptions C01_parse_total.
+
+(* the list reader always answers, so list and dictionary conversions return a value or an error *)
+Theorem C01_list_reader_total : forall s, get_list s <> None.
+Proof. exact get_list_total. Qed.
+Print Assumptions C01_list_reader_total.
+Theorem C01_as_list_total : forall v,
+  (exists l, v_as_list v = inr l) \/ (exists e, v_as_list v = inl (list_err_msg e)).
+Proof. exact v_as_list_total. Qed.
+Print Assumptions C01_as_list_total.
+Theorem C01_as_dict_total : forall v,
+  (exists d, v_as_dict v = inr d)
+  \/ (exists e, v_as_dict v = inl (list_err_msg e))
+  \/ v_as_dict v = inl (lit "missing value to go with key").
+Proof. exact v_as_dict_total. Qed.
+Print Assumptions C01_as_dict_total.
+Theorem C01_as_int_total : forall v,
+  (exists z, v_as_int v = inr z) \/ v_as_int v = inl (err_expected_int (as_str v)).
+Proof. exact v_as_int_total. Qed.
+Print Assumptions C01_as_int_total.
+Theorem C01_as_bool_total : forall v,
+  (exists b, v_as_bool v = inr b) \/ v_as_bool v = inl (err_expected_bool (as_str v)).
+Proof. exact v_as_bool_total. Qed.
+Print Assumptions C01_as_bool_total.
+Theorem C01_as_float_total : forall v,
+  (exists f, v_as_float v = inr f) \/ v_as_float v = inl (err_expected_float (as_str v)).
+Proof. exact v_as_float_total. Qed.
+Print Assumptions C01_as_float_total.
+Theorem C01_varname_total : forall s,
+  exists name idx, parse_varname_literal s = (name, idx) /\ (idx = None -> name = s).
+Proof. exact parse_varname_literal_total. Qed.
+Print Assumptions C01_varname_total.
+
+(* expression evaluation spends fuel only on what the commands it invokes spend *)
+Theorem C01_expr_total : forall (is_alphanumeric is_alphabetic : char -> bool) (exec : executor),
+  (forall st cmd argv st', exec st cmd argv <> (st', Fuel)) ->
+  forall st e st', expr_eval is_alphanumeric is_alphabetic exec st e <> (st', Fuel).
+Proof. exact expr_eval_total. Qed.
+Print Assumptions C01_expr_total.
+
+(* a backslash substitution always yields a Unicode scalar value (no invalid char is built) *)
+Theorem C01_bsubst_scalar : forall r,
+  forallb is_scalar r = true -> is_scalar (fst (bsubst r)) = true.
+Proof. exact bsubst_scalar. Qed.
+Print Assumptions C01_bsubst_scalar.
